@@ -803,7 +803,7 @@ mod check {
         let t0 = Instant::now();
         let seed: u64 = std::env::var("VERIF_SEED").ok().and_then(|s| s.parse::<i64>().ok()).map(|x| x as u64).unwrap_or(1);
         let thorough = tier == "thorough";
-        let (batches, per_batch) = if thorough { (25u32, 400u32) } else { (5, 120) };
+        let (batches, per_batch) = if thorough { (60u32, 500u32) } else { (8, 150) };
         let dir = root().join("out/work").join(format!("C18-{}", std::process::id()));
         std::fs::create_dir_all(&dir).ok();
         for rt in RTS {
@@ -839,18 +839,20 @@ mod check {
         for b in 0..batches {
             all_batches.push(generate::programs(seed.wrapping_mul(1000).wrapping_add(b as u64), per_batch, thorough));
         }
-        // batches run concurrently (each uses three processes)
-        let results: Vec<Result<(Vec<Program>, Vec<[Record; 3]>), String>> = {
-            let hs: Vec<_> = all_batches
+        // batches run concurrently, five at a time (each uses three runner processes)
+        let mut results: Vec<Result<(Vec<Program>, Vec<[Record; 3]>), String>> = vec![];
+        let mut queue: Vec<(usize, Vec<Program>)> = all_batches.into_iter().enumerate().collect();
+        while !queue.is_empty() {
+            let chunk: Vec<(usize, Vec<Program>)> = queue.drain(..queue.len().min(5)).collect();
+            let hs: Vec<_> = chunk
                 .into_iter()
-                .enumerate()
                 .map(|(i, progs)| {
                     let dir = dir.clone();
                     std::thread::spawn(move || run_all(&progs, &dir, &format!("b{i}")).map(|r| (progs, r)))
                 })
                 .collect();
-            hs.into_iter().map(|h| h.join().unwrap_or_else(|_| Err("thread panicked".into()))).collect()
-        };
+            results.extend(hs.into_iter().map(|h| h.join().unwrap_or_else(|_| Err("thread panicked".into()))));
+        }
         for res in results {
             let (progs, recs) = match res {
                 Ok(x) => x,
